@@ -2,7 +2,7 @@
  * parsec/utils/mca_param_cmd_line.c (included) with the real parsec_setenv_mca_param /
  * parsec_mca_var_env_name (mca_param.c), parsec_setenv (parsec_environ.c) and argv.c linked.
  * K = 3 occurrences "--mca <param> <value>": the parameter of each occurrence is chosen by the
- * solver from {p, q}, the value from {"v1", "v2", "w"} (symbolic indices decoded in loops with
+ * solver from {p, q}, the value from {"v1", "w"} (symbolic indices decoded in loops with
  * concrete counters, see harness/C39/split.c).
  * Obligations: one entry per distinct parameter, in order of first occurrence; its value is the
  * comma-separated list of the values given for it, in order; the environment block built by
@@ -18,9 +18,15 @@
 #define K 3
 #endif
 static const char *PN[2] = { "p", "q" };
-static const char *VN[3] = { "v1", "v2", "w" };
+#define NV 2
+static const char *VN[NV] = { "v1", "w" };
 
 #ifndef VP_NATIVE
+/* CBMC mode: the process environment is a definite (empty) block distinct from every block built here;
+ * putenv is only called by parsec_setenv for that block (unreached) */
+static char *vp_environ_block[1];
+char **environ = vp_environ_block;
+int putenv(char *s) { (void)s; return 0; }
 /* CBMC mode: asprintf model for formats made of literal characters and %s */
 int asprintf(char **out, const char *fmt, ...)
 {
@@ -71,9 +77,9 @@ static void instance(const int *pi, const int *vi)
 int main(void)
 {
     int cp[K], cv[K];
-    for (int k = 0; k < K; k++) { cp[k] = IN_RANGE(0, 1); cv[k] = IN_RANGE(0, 2); }
+    for (int k = 0; k < K; k++) { cp[k] = IN_RANGE(0, 1); cv[k] = IN_RANGE(0, NV - 1); }
     for (int a = 0; a < 2; a++) for (int b = 0; b < 2; b++) for (int c = 0; c < 2; c++)
-        for (int x = 0; x < 3; x++) for (int y = 0; y < 3; y++) for (int z = 0; z < 3; z++)
+        for (int x = 0; x < NV; x++) for (int y = 0; y < NV; y++) for (int z = 0; z < NV; z++)
             if (a == cp[0] && b == cp[1] && c == cp[2] && x == cv[0] && y == cv[1] && z == cv[2]) {
                 int pi[3] = { a, b, c }, vi[3] = { x, y, z };
                 instance(pi, vi);
